@@ -91,6 +91,8 @@ pub use streams::{
 
 mod timer;
 use crate::congestion::Controller;
+#[cfg(feature = "verif-hooks")]
+mod verif_probe;
 use timer::{Timer, TimerTable};
 
 /// Protocol state and logic for a single QUIC connection
